@@ -8,7 +8,7 @@ VERIF = os.path.dirname(os.path.dirname(os.path.abspath(__file__)))
 ROUND = {"a": "round 1", "b": "round 2", "c": "round 3 (themes: history-dependent, configuration-dependent, two cooperating sites, numeric-type dependent)",
          "d": "round 4 (themes: history-, configuration-, numeric-type/range-, structure-dependent, untouched code region)",
          "e": "round 5 (theme: adversarial to randomised checking - rare coincidences, everyday values, order of steps, surviving state)",
-         "l": "round 12 (like round 11, with an interplay of two features instead of a region of the code)",
+         "l": "round 12 (like round 11, with an interplay of two features instead of a region of the code)", "m": "round 13 (six regions where the TYPE or RANGE of a magnitude decides a branch)",
          "k": "round 11 (the agent was given all twenty properties, the harness description and one region of the code, and chose the property itself)",
          "j": "round 10 (no new features: at most 6 changed lines of existing logic, inside the stated quantifier, hidden where a checker has to make excuses - ties, rounding, conversions that legitimately fail, known gaps)",
          "i": "round 9 (the change had to live outside __init__.py / conversions.py: formatting.py, json.py, the unit-definition modules, parsing.py, the generated parser, cli.py)",
